@@ -199,6 +199,17 @@ def main():
                 pred(l, "collapseCloseVertices returned %s: ends / order / an adjacent pair the validator never accepted / unchanged flag" % a)
         except Exception:
             pred(l, "no observation: " + a[:80])
+    # thin obstacles in front of the last state: the last motion of a valid input steps over a wall thinner than the validity-checking
+    # step; shortcutting / smoothing split or move that motion, checkAndRepair has to re-validate the motion INTO the (fixed) last state
+    thin_feed = [l.strip() for l in open(c.replay) if l.startswith("THIN ")] if c.replay else ["THIN %d %d %s %s %s simplify" % (rng.randint(1, 10 ** 6), 40 if quick else 150, th, lo, hi) for th, lo, hi in ([(0.9, 0.05, 0.95), (0.5, 0.05, 1.5), (0.9, 0.05, 0.95)] if quick else [(0.9, 0.05, 0.95), (0.5, 0.05, 1.5), (0.95, 0.02, 0.5), (0.7, 0.5, 3.0)] * 4)]
+    with cf.ThreadPoolExecutor(12) as ex:
+        thin_out = list(ex.map(lambda l: vf.sh([drv], input=l + "\n", timeout=1200), thin_feed))
+    c.step("impl:thin-wall-simplify", drv + " THIN ... (%d lines)" % len(thin_feed), sum(x[3] for x in thin_out), all(x[0] == 0 for x in thin_out))
+    for l, (rct, ot, et, st) in zip(thin_feed, thin_out):
+        w = [x for x in ot.split("\n") if x.startswith("thin ")]
+        if not w: pred(l, "no observation (simplify crashed or hung on a thin-wall path, exit %s)" % rct); continue
+        t = w[0].split("|")[0].split(); stats["thin_wall_inputs"] += int(t[2]); stats["thin_wall_success"] += int(t[3])
+        if int(t[4]) > 0: pred(l, "simplify reports success but the path fails PathGeometric::check() / an end state changed in %s of %s valid thin-wall inputs (%s)" % (t[4], t[2], w[0].split("|")[1].strip()))
     if ledger_feed:
         rc3, o3, e3, s3 = vf.sh([model, "ledger"], input="\n".join(ledger_feed) + "\n", timeout=600); c.step("correspond:model-ledger", model + " ledger", s3, rc3 == 0)
         for j, v in zip(ledger_jobs, o3.split("\n")):
